@@ -155,8 +155,10 @@ impl Story {
             StoryState::check_arguments(args)?;
         }
 
-        // Snapshot the output stream
+        // Snapshot the output stream and the "previous content" cursor, which decides
+        // which containers the next divert counts as newly entered
         let output_stream_before = self.get_state().get_output_stream().clone();
+        let previous_pointer_before = self.get_state().get_previous_pointer();
         self.get_state_mut().reset_output(None);
 
         // State will temporarily replace the callstack in order to evaluate
@@ -176,8 +178,15 @@ impl Story {
             .reset_output(Some(output_stream_before));
 
         // Finish evaluation, and see whether anything was produced
-        self.get_state_mut()
-            .complete_function_evaluation_from_game()
+        let result = self
+            .get_state_mut()
+            .complete_function_evaluation_from_game();
+
+        // The function ran on the story's own thread: put its cursor back
+        self.get_state()
+            .set_previous_pointer(previous_pointer_before);
+
+        result
     }
 
     pub(crate) fn visit_changed_containers_due_to_divert(&mut self) {
